@@ -68,6 +68,9 @@ type Fault struct {
 	ZeroLen bool // Read returns (0, nil)
 	// Stall > 0: the call takes this long (virtual time) and then proceeds normally
 	Stall time.Duration
+	// StallAfter > 0: the packet goes out (and causes its replies) at once but the call only returns after this long
+	// (a sender descheduled inside the syscall)
+	StallAfter time.Duration
 	// Persist: the fault also applies to every later call of the same op on the same handle
 	Persist bool
 }
@@ -285,8 +288,11 @@ func (s *simSink) WriteTo(buf []byte, addrPort netip.AddrPort) error {
 	if h.SinkClosed > 0 {
 		h.UseAfterClose = append(h.UseAfterClose, "write")
 	}
+	var stallAfter time.Duration
 	if f, ok := w.fault(h, "write"); ok {
-		if f.Stall > 0 {
+		if f.StallAfter > 0 {
+			stallAfter = f.StallAfter
+		} else if f.Stall > 0 {
 			// a slow send: the probe was handed to the network at `now` (that instant is the RTT reference and the
 			// pacing reference); the call only returns - and replies are only caused - after the stall
 			w.mu.Unlock()
@@ -317,6 +323,9 @@ func (s *simSink) WriteTo(buf []byte, addrPort netip.AddrPort) error {
 	}
 	if cb != nil {
 		cb(h, e)
+	}
+	if stallAfter > 0 {
+		time.Sleep(stallAfter)
 	}
 	return nil
 }
